@@ -511,6 +511,12 @@ func (g *generator) shouldCreateSubMethod(ctx *builder.MethodContext, source, ta
 
 	createSubMethod := false
 
+	if ctx.Conf.SkipCopySameType && source.String == target.String {
+		// the SkipCopy rule handles this inline, regardless of how often the type occurs
+		ctx.MarkSeen(source)
+		return false
+	}
+
 	if ctx.HasSeen(source) {
 		g.lookup.ByID(ctx.IndexID).Dirty = true
 		createSubMethod = true
@@ -524,9 +530,6 @@ func (g *generator) shouldCreateSubMethod(ctx *builder.MethodContext, source, ta
 			createSubMethod = true
 		case source.Enum(&ctx.Conf.Enum).OK && target.Enum(&ctx.Conf.Enum).OK:
 			createSubMethod = true
-		}
-		if ctx.Conf.SkipCopySameType && source.String == target.String {
-			createSubMethod = false
 		}
 	}
 	ctx.MarkSeen(source)
